@@ -14,6 +14,16 @@ CHECKS = {
  # id: (technique, level category, text, design_ref)
  "C01": ("contract-based deductive verification: per-path VCs from symbolic execution of the real task constructors + initialize, discharged by z3",
          "proof", "Soundness/completeness contracts on FixedDurationTask/ZeroDurationTask/VariableDurationTask.__init__, Task.set_assertions and the task loop of SchedulingSolver.initialize, for symbolic durations/release/due/horizon, all schedules (universally quantified unknowns)", "4/C01"),
+ "C02": ("contract-based deductive verification: VCs from symbolic execution of add_required_resource / SelectWorkers / CumulativeWorker / initialize, discharged by z3",
+         "proof", "Contracts on Task.add_required_resource (static, delayed, dynamic: unbounded in all integers), SelectWorkers.__init__, CumulativeWorker expansion, the pairwise-disjointness and work-amount sections of initialize; capacity and selection lists are bounded shapes (reported as bounded)", "4/C02"),
+ "C03": ("contract-based deductive verification: soundness contract per task-constraint class, VCs by symbolic execution of the real constructors + initialize, z3",
+         "proof", "One soundness contract per task-constraint class over all task-kind combinations and symbolic parameters: single/two-task constraints unbounded; list constraints (contiguous, groups, N-in-intervals) over bounded list shapes", "4/C03"),
+ "C04": ("contract-based deductive verification: soundness contract per resource-constraint class, VCs by symbolic execution, z3; periodic constraints via a proved quantifier-elimination lemma",
+         "proof", "Soundness contracts for ResourceUnavailable, ResourcePeriodicallyUnavailable, WorkLoad, ResourceTasksDistance, ResourceNonDelay, ResourceInterrupted, ResourcePeriodicallyInterrupted, SameWorkers, DistinctWorkers with symbolic interval endpoints/bounds/distances/offsets; busy-interval counts, interval-list lengths and periods are bounded shapes", "4/C04"),
+ "C05": ("contract-based deductive verification: completeness contracts in witness / existential form for every encoder, z3",
+         "proof", "Completeness (meaning => exists aux. asserted set) of every task, assignment, task-constraint and resource-constraint encoder under contract, with auxiliary unknowns existential; known incompletenesses are carved out as regions in known_findings.json and must stay the only failing regions", "4/C05"),
+ "C06": ("contract-based deductive verification: 'scheduled = mandatory' and 'left out = deleted' obligations per encoder, z3",
+         "proof", "For each encoder that can name an optional task: soundness guarded by the scheduled flags, completeness with the task left out (witness at the conventional point), the four optional-task rules and their rejections", "4/C06"),
 }
 NOT_YET = {}
 
